@@ -228,6 +228,36 @@ def main():
             bad = f"the complete iteration after an abandoned one stopped at an accumulated mass of {acc} < system mass {M} ({len(members)} members)"
         if bad:
             ck.fail("stop-rule-depends-on-earlier-iteration", inp, bad)
+    # ---- members WITHOUT heavy atoms (molecular hydrogen) add nothing to the accumulated heavy-atom mass: the iteration still runs until the
+    # system mass is reached, however many members that takes
+    for text in ["[H][H].|99.0%|CCF.|1.0|", "[H][H].|96.0%|CC.|4.0|"]:
+        system = sysrun.parse_system(text, None)
+        if system is None or not system.generable:
+            ck.note(f"hydrogen system not generable: {text}")
+            continue
+        M = float(system.system_mass)
+        for sd in range(2 if quick else 6):
+            members, err, _ = sysrun.run_system(system, Recorder(ck.seed * 29 + sd), max_members=200000)
+            inp = {"text": text, "system_mass": M, "rng_seed": ck.seed * 29 + sd}
+            ck.evaluations += 1
+            ck.count("hydrogen-only-member-systems")
+            if err is not None:
+                ck.fail("generable-system-raises", inp, f"{type(err).__name__}: {err}")
+                continue
+            acc = 0.0
+            bad = None
+            for j, m in enumerate(members):
+                if not (acc < M):
+                    bad = f"member {j} yielded although the accumulated heavy-atom mass is already {acc} >= system mass {M}"
+                    break
+                if not m.fully_generated:
+                    bad = f"member {j} is not fully generated"
+                    break
+                acc += float(m.weight)
+            if bad is None and acc < M and abs(acc - M) > 1e-9 * max(1.0, M):
+                bad = f"iteration stopped after {len(members)} members at an accumulated heavy-atom mass of {acc} < system mass {M}"
+            if bad:
+                ck.fail("stopped-before-system-mass" if "stopped" in bad else "yield-after-system-mass", inp, bad)
     ck.rule = ("one case = one iteration of System.generator (80 %) or one System.generate call (20 %) on a system of 1-4 components made "
                "distinguishable by marker atoms (F, Cl, Br, I), system masses from below one molecule to ~30 molecules; non-trivial = at least one member; "
                "distinct by (string, history)")
